@@ -1066,7 +1066,7 @@ func runTAB05(p *Prog, r *RuleRun) {
 			return "time"
 		case direct["PutUvarint"] || direct["Uvarint"]:
 			return "varint"
-		case deep["Write"] || deep["copy"]:
+		case deep["Write"] || deep["copy"] || deep["append"] || deep["Clone"]:
 			return "bytes"
 		}
 		return "?" + m
@@ -1186,7 +1186,13 @@ func runTAB05(p *Prog, r *RuleRun) {
 		if e == "@varint" {
 			e, d, label = prims["enc"]["varint"], prims["dec"]["varint"], "varint"
 		}
-		ok := em != "" && dm != "" && e != "" && d != "" && callsOf(encT, em, true)[e] && callsOf(decT, dm, true)[d]
+		dcalls := callsOf(decT, dm, true)
+		if d == "copy" && (dcalls["append"] || dcalls["Clone"]) {
+			// append([]byte(nil), x...) / bytes.Clone are the other spellings of "copy the bytes out"
+			// (whether the result really is a fresh slice is VF-03's question, not this rule's)
+			dcalls["copy"] = true
+		}
+		ok := em != "" && dm != "" && e != "" && d != "" && callsOf(encT, em, true)[e] && dcalls[d]
 		r.Check(ok, "pair:"+pr.kind+":"+label, dpos, fmt.Sprintf("%s.%s uses %s, %s.%s uses %s", encT, em, e, decT, dm, d),
 			fmt.Sprintf("primitive pairing broken for the %s primitive: the encoder side (%s.%s) must use %s and the decoder side (%s.%s) %s", pr.kind, encT, em, pr.e, decT, dm, pr.d))
 	}
@@ -1342,7 +1348,15 @@ func runTAB08(p *Prog, r *RuleRun) {
 		}
 		return true
 	})
-	r.Check(arr8 || arr8ssa, "set:width", spos, "the encoded value is exactly 8 bytes", "SetUint64's buffer is not [8]byte")
+	// or the value is built by one AppendUint64 onto an empty slice: exactly 8 bytes as well
+	nPut := 0
+	for _, o := range extractLayout(info, set.Body) {
+		if o.Kind == "put" {
+			nPut++
+		}
+	}
+	append8 := put != nil && nPut == 1 && put.Lo == 0 && put.Hi == 8 && put.Width == 64 && put.Buf != "" && !arr8
+	r.Check(arr8 || arr8ssa || append8, "set:width", spos, "the encoded value is exactly 8 bytes", "SetUint64's buffer is not [8]byte")
 	// length checks: GetUint64's CFG is evaluated for each length of the stored value
 	zero, eight := false, false
 	if gfn := p.Func("", "WAL.GetUint64"); gfn != nil {
